@@ -44,7 +44,10 @@ tie, checked on every run (T-acc + T-diff on the REAL .vcd file):
   Python-side: exact bijection between the design's top-level signals and the $var declarations, per component $scope
   (path = repr(host), s -> top) and by the signal's full name relative to its host (interface prefixes and list indices
   kept, [ ] -> ( )): no duplicates, nothing missing or extra, equal widths; every signal is located by that key; PrintTextWavePass's
-  textwave_dict equals the same samples.
+  textwave_dict has a row for EVERY top-level signal of every component except the components' implicit clk/reset ports
+  (expectation independent of the pass's own filter) and every row equals the same samples.  Ordinary interface pins
+  called exactly clk/reset used to have no row (fixed in /repo 7ce237b); a recurrence is reported under the structural
+  key C16:textwave:no-row:interface-pin-named-clk-or-reset.
 partial / modelled: decimal `#t` and the header are tokenised in Python (trusted glue); blank lines are ignored;
   the reader is strict: a body line that is not `#t`, `0|1<code>` or `b[01]+ <code>` makes the whole file malformed
   (verdict bit 1 = violation); x/z values are well-formed VCD but have no two-state value, so they can never equal a sample; the text-wave comparison is done in Python.
@@ -380,6 +383,11 @@ LEAF_POOL = ['clk', 'clk', 'reset', 'reset', 'msg', 'val', 'rdy', 'in_', 'out', 
 IFC_POOL = ['spi', 'a', 'a', 'b', 'a_0', 'a__b', 'imem', 'req', 'top', 'c0_0', 'c0', 'c1_0', 'in0', 'out0', 'x', 'clk_',
             'reset_', 'never0']
 
+# names that contain / start with / end in the reserved names, for ports, wires, list elements and interface pins
+RESERVED_LIKE = ['soft_reset', 'reset_n', 'div_clk', 'clk_en', 'gclk', 'clkreset', 'nclk', 'preset', 'clk_', 'reset_']
+LEAF_POOL += RESERVED_LIKE
+IFC_POOL  += [n for n in RESERVED_LIKE if n not in IFC_POOL]
+
 def draw(rng, pool, n):
   out = []
   while len(out) < n:
@@ -388,7 +396,9 @@ def draw(rng, pool, n):
   return out
 
 def rand_ifc_names(rng):
-  return {'leaf': draw(rng, LEAF_POOL, 3), 'bundle': draw(rng, LEAF_POOL, 3), 'comp': draw(rng, IFC_POOL, 3)}
+  comp = draw(rng, IFC_POOL, 3)
+  wires = draw(rng, [n for n in RESERVED_LIKE + ['w', 'a_0', 'x'] if n not in comp], 2)
+  return {'leaf': draw(rng, LEAF_POOL, 3), 'bundle': draw(rng, LEAF_POOL, 3), 'comp': comp, 'wires': wires}
 
 def nifc_source(tag, nm):
   """a component with a nested bundle, a list of nested bundles and a flat interface whose attribute names are drawn;
@@ -404,6 +414,10 @@ def nifc_source(tag, nm):
        f'    s.{cp[0]} = NBundle{tag}( T )', f'    s.{cp[1]} = [ NBundle{tag}( T ) for _ in range(2) ]',
        f'    s.{cp[2]} = NLeaf{tag}( T )']
   tl, bl = [], []
+  wn = nm.get('wires')
+  if wn:
+    L += [f'    s.{wn[0]} = Wire( Bits1 )', f'    s.{wn[1]} = [ Wire( Bits1 ) for _ in range(2) ]']
+    bl += [f's.{wn[0]}', f's.{wn[1]}[0]', f's.{wn[1]}[1]']
   for B in (f's.{cp[0]}', f's.{cp[1]}[0]', f's.{cp[1]}[1]'):
     for sub in (bd[0], bd[1]):
       tl.append(f'{B}.{sub}.{lf[0]}'); bl += [f'{B}.{sub}.{lf[1]}', f'{B}.{sub}.{lf[2]}']
@@ -478,33 +492,37 @@ def render(spec, name):
       L.append(f'    {r}.in_ //= {src}')
       src = f'{r}.{stage_out(st)}'
     L.append(f'    s.out{j} //= {src}')
+  xnames = spec.get('names') or {}
   for i, ex in enumerate(spec['extras']):
     k = ex[0]
+    nm_ = xnames.get(i)            # drawn attribute name of the wire / port / list this extra creates (None: default)
     if k == 'none':
       pass
     elif k == 'never':
-      L.append(f'    s.never{i} = Wire( {tdecl(ex[1])} )')
+      L.append(f'    s.{nm_ or f"never{i}"} = Wire( {tdecl(ex[1])} )')
     elif k == 'konst':
-      L.append(f'    s.konst{i} = OutPort( {tdecl(ex[1])} )')
-      L.append(f'    s.konst{i} //= {ex[2]}')
+      L.append(f'    s.{nm_ or f"konst{i}"} = OutPort( {tdecl(ex[1])} )')
+      L.append(f'    s.{nm_ or f"konst{i}"} //= {ex[2]}')
     elif k == 'counter':
       L.append(f'    s.cnt{i} = Counter( {tdecl(ex[1])} )')
-      L.append(f'    s.cnto{i} = OutPort( {tdecl(ex[1])} )')
-      L.append(f'    s.cnto{i} //= s.cnt{i}.out')
+      L.append(f'    s.{nm_ or f"cnto{i}"} = OutPort( {tdecl(ex[1])} )')
+      L.append(f'    s.{nm_ or f"cnto{i}"} //= s.cnt{i}.out')
     elif k == 'topcnt':
-      L.append(f'    s.tc{i} = Wire( {tdecl(ex[1])} )')
+      w_ = nm_ or f'tc{i}'
+      L.append(f'    s.{w_} = Wire( {tdecl(ex[1])} )')
       L.append(f'    @update_ff')
       L.append(f'    def up_tc{i}():')
-      L.append(f'      s.tc{i} <<= s.tc{i} + {ex[2]}')
+      L.append(f'      s.{w_} <<= s.{w_} + {ex[2]}')
     elif k == 'idle':
       L.append(f'    s.idle{i} = Idle( {tdecl(ex[1])} )')
     elif k == 'listports':
       n = ex[2]
-      L.append(f'    s.lp{i} = [ InPort( {tdecl(ex[1])} ) for _ in range({n}) ]')
+      lp = nm_ or f'lp{i}'
+      L.append(f'    s.{lp} = [ InPort( {tdecl(ex[1])} ) for _ in range({n}) ]')
       L.append(f'    s.lo{i} = [ OutPort( {tdecl(ex[1])} ) for _ in range({n}) ]')
       L.append(f'    for i in range({n}):')
-      L.append(f'      s.lo{i}[i] //= s.lp{i}[i]')
-      for q in range(n): inputs.append((f'lp{i}', q, ex[1]))
+      L.append(f'      s.lo{i}[i] //= s.{lp}[i]')
+      for q in range(n): inputs.append((lp, q, ex[1]))
     elif k == 'topifc':
       n = ex[2]
       nm = ex[3] if len(ex) > 3 else {'leaf': ['msg', 'val'], 'pair': ['req', 'resp']}
@@ -580,7 +598,13 @@ def rand_spec(rng, big=False):
     elif k == 'listports': extras.append(('listports', rand_type(rng), rng.randint(1, 3)))
     elif k == 'topifc':
       extras.append(('topifc', rand_type(rng), rng.randint(1, 2), {'leaf': draw(rng, LEAF_POOL, 2), 'pair': draw(rng, LEAF_POOL, 2)}))
-  return {'chains': chains, 'extras': extras}
+  names, used = {}, set()
+  for i, ex in enumerate(extras):
+    if ex[0] in ('never', 'konst', 'counter', 'topcnt', 'listports') and rng.random() < 0.6:
+      nm = rng.choice(RESERVED_LIKE)
+      if nm in used: nm = f'x{i}_{nm}'
+      used.add(nm); names[i] = nm
+  return {'chains': chains, 'extras': extras, 'names': names}
 
 def rand_inputs(rng, inputs, ncyc):
   """per cycle [value per input].  Every input draws from a small pool built from 1-3 `value_families` of its packed
@@ -607,6 +631,15 @@ def rand_inputs(rng, inputs, ncyc):
   return seq
 
 DIRECTED = [
+  # smallest design with ordinary interface pins called exactly clk / reset (top-level list of nested interfaces)
+  {'chains': [], 'extras': [('topifc', ('b', 4), 1, {'leaf': ['clk', 'reset'], 'pair': ['a', 'b']})]},
+  # names that contain / start with / end in the reserved names: wires, ports, list elements, interface pins, interfaces
+  {'chains': [{'T': ('b', 4), 'stages': [('NIfc', {'leaf': ['msg', 'soft_reset', 'div_clk'], 'bundle': ['gclk', 'reset_n', 'clkreset'],
+                                                    'comp': ['clk_en', 'nclk', 'preset'], 'wires': ['gclk', 'soft_reset']})],
+               'share': None, 'aslist': False}],
+   'extras': [('never', ('b', 3)), ('konst', ('b', 4), 9), ('counter', ('b', 3)), ('topcnt', ('b', 1), 1), ('listports', ('b', 2), 2),
+              ('topcnt', ('b', 2), 1), ('topifc', ('b', 1), 1, {'leaf': ['gclk', 'soft_reset'], 'pair': ['div_clk', 'reset_n']})],
+   'names': {0: 'clkreset', 1: 'reset_n', 2: 'div_clk', 3: 'soft_reset', 4: 'gclk', 5: 'clk_en'}},
   # a single component without children: s.clk is in no net and gets its net during the header walk
   {'chains': [{'T': ('b', 4), 'stages': [], 'share': None, 'aslist': False}], 'extras': []},
   {'chains': [], 'extras': []},
@@ -898,12 +931,16 @@ def analyse(res):
     mism.append({'what': 'clock (time, value) as read back', 'first_difference_at': d,
                  'read_back': wave[max(0, d - 2):d + 3], 'expected': expw[max(0, d - 2):d + 3]})
   out['mismatches'] = mism
-  # ---- text wave
-  tw, twm = res['textwave'], []
+  # ---- text wave.  Expectation independent of the pass: EVERY top-level signal of EVERY component has a row, except
+  # the implicit clock and reset ports of components (name relative to the host exactly `clk` / `reset`); the top's
+  # reset has a row.
+  tw, twm, pins = res['textwave'], [], []
   for i, r in enumerate(res['repr']):
-    if res['field'][i] in ('clk', 'reset') and r != 's.reset': continue
+    if res['where'][i][1] in ('clk', 'reset') and r != 's.reset': continue
     if r not in tw:
-      twm.append({'signal': r, 'what': 'not recorded'}); continue
+      if res['field'][i] in ('clk', 'reset'): pins.append(r)       # an ordinary interface pin that is called clk / reset
+      else: twm.append({'signal': r, 'what': 'has no row in the text-wave record'})
+      continue
     rec = tw[r]
     if len(rec) != n:
       twm.append({'signal': r, 'what': 'number of cycles', 'recorded': len(rec), 'simulated': n}); continue
@@ -911,6 +948,7 @@ def analyse(res):
       okv = s.startswith('0b') and len(s) == 2 + widths[i] and set(s[2:]) <= {'0', '1'} and int(s[2:], 2) == samples[t][i]
       if not okv:
         twm.append({'signal': r, 'cycle': t, 'simulator': samples[t][i], 'textwave': s}); break
+  out['textwave_pins_without_row'] = pins
   out['textwave_mismatches'] = twm
   # ---- model parameters read off the file: net order = order of the default dump
   first_t = next(k for k, (a, _) in enumerate(tokens) if a == 't')
@@ -1133,7 +1171,17 @@ def run(ctx):
                     {'design_source': src, 'top': name, 'inputs': [list(x) for x in inputs], 'input_sequence': seq,
                      'sim_reset_first': reset, 'flow': flow}, found_input=(kind == 'header'))
     if 'coq' not in an: continue
-    if an['textwave_mismatches']:
+    if an['textwave_pins_without_row']:
+      # structural key: one finding, whatever design shows it first (the directed minimal design comes first)
+      ctx.violation('C16:textwave:no-row:interface-pin-named-clk-or-reset',
+                    'PrintTextWavePass records no row for an ordinary signal whose attribute name is exactly `clk` or `reset` when it is '
+                    'a pin of an Interface (e.g. s.spi.clk): _collect_sig_func drops every signal with get_field_name() in (clk, reset), '
+                    'not only the implicit clock/reset ports of components; the pin toggles in the simulator and is in the VCD, but is '
+                    f'absent from textwave_dict / print_textwave(): {an["textwave_pins_without_row"][:4]}',
+                    {'design_source': src, 'top': name, 'inputs': [list(x) for x in inputs], 'input_sequence': seq,
+                     'sim_reset_first': reset, 'flow': flow, 'signals_without_row': an['textwave_pins_without_row'][:12],
+                     'rows_present': sorted(res['textwave'])[:12]})
+    if an['textwave_mismatches'] and sum(1 for v in ctx.violations if re.match(r'C16:textwave:[0-9a-f]{12}$', v[0])) < MAX_REPORTS:
       ctx.violation(f'C16:textwave:{key}', f'PrintTextWavePass record differs from the simulator: {an["textwave_mismatches"][0]}',
                     {'design_source': src, 'top': name, 'inputs': [list(x) for x in inputs], 'input_sequence': seq,
                      'sim_reset_first': reset, 'flow': flow, 'mismatches': an['textwave_mismatches'][:6]})
@@ -1176,11 +1224,12 @@ def replay(ctx, r):
                    flow=rp.get('flow', 'default'))
   an = analyse(res)
   print(json.dumps({'problems': an['problems'], 'mismatches': an.get('mismatches', [])[:10],
-                    'textwave_mismatches': an.get('textwave_mismatches', [])[:10]}, indent=1, default=str))
+                    'textwave_mismatches': an.get('textwave_mismatches', [])[:10],
+                    'textwave_pins_without_row': an.get('textwave_pins_without_row', [])[:10]}, indent=1, default=str))
   if 'coq' in an:
     v = ctx.coq_eval('verdict', 'Base.Prelude Trace.Vcd', COQ_DEFS, [f'verdict {an["coq"]}'])
     print('coq verdict bits:', v[0])
-    return 0 if v[0].strip() == '0' and not an['problems'] and not an['textwave_mismatches'] else 1
+    return 0 if v[0].strip() == '0' and not an['problems'] and not an['textwave_mismatches'] and not an['textwave_pins_without_row'] else 1
   return 1
 
 def main(ctx):
